@@ -665,17 +665,18 @@ class C09(common.Prop):
     RUNNER_FLOATS = True
     # kernel primitives of PrimFloat that Print Assumptions prints unqualified (the concrete binary64 Examples and the refutation use them)
     ALLOWED_AXIOMS = {"of_uint63", "ldshiftexp", "frshiftexp", "normfr_mantissa", "next_up", "next_down", "classify", "compare"}
-    MODEL_FILES = ["base/Num.v", "base/Tensor.v", "model/C09_Masked.v", "model/C09_Ops.v", "model/C09_Facts.v", "model/C09_Src.v", "model/C09_Run.v"]
+    MODEL_FILES = ["base/Num.v", "base/Tensor.v", "model/C09_Masked.v", "model/C09_Ops.v", "model/C09_TfNorm.v", "model/C09_Facts.v", "model/C09_Src.v", "model/C09_Run.v"]
     RULE = ("one operation x backend per case (selection, normalisation, linear transforms, interpolation, bounding boxes, focus, "
             "zero-filling, write/read, feature representations; NumPy / Torch / TensorFlow where the backend offers it) on a float32 pose "
             "(F<=7, P<=2, <=3 components, D 1..3, missing rate 0..1 incl. wholly missing points) under 4-5 fillings of the missing slots "
             "(finite, 1e30, NaN, +inf, -inf, mixed, zero); oracle: visible results bit-identical over the fillings (NaN one word, -0.0 = +0.0); "
             "model: missing pattern / shapes / errors exact, values within rtol 2e-4 + atol 2e-4 (inner angle 5e-3, point-line 0.25: "
-            "ill-conditioned near degenerate triangles); non-trivial = at least one missing slot and the operation returns")
+            "ill-conditioned near degenerate triangles; normalize_distribution: + 4e-7 (|mu| + 60) / std, the float32 cancellation of "
+            "x - mu divided by std; TensorFlow / Torch compute in float32, the model in binary64); non-trivial = at least one missing slot and the operation returns")
     TRUSTED = ["Coq 8.16.1 kernel", "harness/translate_c09.py (fail-closed ast translator)",
                "extraction: ExtrOcamlBasic, ExtrOCamlFloats, ExtrOCamlInt63; runner/driver.ml",
                "harness/c09.py canonicalisers (NaN -> one word, -0.0 -> +0.0, errors -> one class, Torch/TF validity -> numpy mask polarity)"]
-    ASSUMPTIONS = ["numpy.ma / torch / tensorflow kernels behave as transcribed in model/C09_Masked.v (sampled by the correspondence)",
+    ASSUMPTIONS = ["numpy.ma / torch / tensorflow kernels behave as transcribed in model/C09_Masked.v and model/C09_TfNorm.v (sampled by the correspondence)",
                    "value/mask shapes of a masked tensor agree (C10); masks of a body are uniform over the coordinate axis (constructor)",
                    "rounding, float32/float64 mixing, summation order, scipy quadratic/cubic splines: not modelled",
                    "serialisation: the file keeps exactly the stored values and confidences (C01), the mask is rebuilt from the confidences"]
